@@ -12,9 +12,9 @@ CHECKS = {
  "C05": ("proof", "coq-lmmm", "machine-checked proof in Coq + trace/skeleton/state correspondence (hook H1)",
          "Coq: for every wf program of the Lmmm fragment and every run length, every state access of the compiled cursor machine hits exactly a cell of the published skeleton, cursor home after each dsp call, storage = layout size; compile/machine mirror mirgen.rs bookkeeping and vm.rs/wasm.rs primitives; tied to the code by skeleton/trace/cursor/words comparison",
          "fragment: named first-order functions, let, if (stateful arms allowed since fix F2), self, mem, delay, now, dsp input, tuple outputs; bytecodegen/wasmgen, closures' private storages, tuple-valued self not modelled; defects F2 F3 F12 repaired"),
- "C02": ("proof", "coq-lmmm", "machine-checked proof in Coq (semantic preservation) + differential execution on VM and WASM",
-         "C02_preservation: compiled cursor machine = reference call-by-value semantics with per-call-site state tree, all wf fragment programs, all run lengths and inputs; ring-buffer refinement; real compiler tied by bit-exact outputs on both backends",
-         "numbers restricted to integer-valued f64 (exact); lower.rs, convert_pronoun, typing, bytecodegen, wasmgen only through correspondence; closures/HOF/pipes/default args/records outside the fragment; defects F3 F13 F47 repaired"),
+ "C02": ("proof", "coq-lmmm", "machine-checked proof in Coq (semantic preservation; reference semantics for closures etc. with conservativity proof) + differential execution on VM and WASM against the extracted reference",
+         "C02_preservation: compiled cursor machine = reference call-by-value semantics with per-call-site state tree, all wf fragment programs, all run lengths and inputs; ring-buffer refinement; real compiler tied by bit-exact outputs on both backends. EXTENSION (Props/C02_ext.v, theory Lmmx): a Coq reference semantics for the rest of the property's core language — closures that read and assign captured variables (cells captured by reference), closure instances owning their state, higher-order functions, function names as values, pipes, default and named arguments, tuples, records and destructuring — proved to conserve the first-order reference incl. the state tree (C02_ext_conservative, so C02_preservation speaks about the same semantics), fuel-monotone and deterministic, site-local in its state (C02_ext_site_state_local), with the sugar equations and instance-stability facts; the real compiler is compared with the extracted reference bit for bit on VM and WASM on generated well-typed programs. A third stream (wide self: tuple / record / sum-typed feedback values, python evaluator of the property text) covers multi-word state cells",
+         "numbers restricted to integer-valued f64 (exact); lower.rs, convert_pronoun, typing, bytecodegen, wasmgen only through correspondence; preservation is PROVED for the first-order fragment only, closures etc. are specified in Coq and compared, not proved; capture-free stateful lambdas, tuple-valued self (python stream only), field assignment, recursion, `_` partial application outside the reference; known findings X1 X2 X5 X6 V1; defects F3 F13 F47 repaired"),
  "C06": ("proof", "coq-lmmm", "machine-checked proof in Coq + direct hot-swap execution on both runtimes",
          "C06_swap_identity/C06_swaps_identity over Lmmm machine + HotSwap model (plan None => clone); real VM new_resume and WASM try_hot_swap exercised at split points incl. 0 with k consecutive swaps, bit-identical to uninterrupted runs",
          "harness replicates mimium-cli's WASM payload preparation (CLI code itself not linked); defect F19 repaired"),
@@ -22,11 +22,11 @@ CHECKS = {
          "C07_untouched_voice_continues / C07_new_voice_fresh / C07_failed_edit_noop / C07_voice_local over Lmmm + HotSwap + StateTree (C08_survivors_whole gives the carried-patch hypothesis for voice insert/delete); real runtimes: edit histories over voice programs, every channel compared with the voice simulated alone",
          "theorem needs the hypothesis that a patch carries the voice's range (provided by C08_survivors_whole for top-level insert/delete); identically shaped siblings may exchange state (allowed by the property); known findings F24 (replaced site inherits cells), F25 (WASM channel count)"),
  "C01": ("other", "coq-lmmm", "Coq theorem for the modelled state layer + differential VM-vs-WASM search",
-         "PARTIAL: C01_core_agree/C01_agree_unless_fault (VM-style and WASM-style state machines agree on every wf fragment program, every run length); beyond the model a search: bitwise VM vs WASM on generated programs, all shipped sources and mutants, scheduler loaded",
-         "bytecodegen.rs / wasmgen.rs lowering not modelled; known findings F17 F46 F48 F13w; defects F3 F13 F15 F23 repaired"),
- "C03": ("other", "coq-lmmm", "Coq safety theorem for the modelled state layer + supervised crash oracle",
-         "PARTIAL: C03_safety (no fault, accesses in bounds, declared output arity) for wf fragment programs on both disciplines; crash oracle (panic/abort/SIGSEGV/timeout, H1 bounds) on accepted generated programs, near-miss mutants and shipped sources",
-         "Rust unsafe memory safety, closures, heap, arrays not modelled; many compiler robustness defects recorded as known findings by panic site / construct class (F26 F30 F31 F37-F41 F61; F3 F4 F33 F34 F36 repaired)"),
+         "PARTIAL: C01_core_agree/C01_agree_unless_fault (VM-style and WASM-style state machines agree on every wf fragment program, every run length); beyond the model a search: bitwise VM vs WASM on generated first-order programs, programs with tuple/record parameters read across branches and recursion, stateful match arms, a FIXED stream of closure / higher-order / tuple / record / sum-type / array programs (generator of C18), all shipped sources and mutants, scheduler loaded",
+         "bytecodegen.rs / wasmgen.rs lowering not modelled; known findings F17 F48 F62 F65 F13w X3 X4 W7 W8 W9; defects F3 F13 F15 F23 F46 F63 F64w repaired"),
+ "C03": ("other", "coq-lmmm", "Coq safety theorem for the modelled state layer + verified bytecode verifier (translation validation of the real compiler's bytecode) + supervised crash oracle",
+         "PARTIAL: C03_safety (no fault, accesses in bounds, declared output arity) for wf fragment programs on both disciplines. BYTECODE PART (Props/C03_bvm.v, theory Bvm): an executable Gallina model of the bytecode VM (vm.rs execute / call_function / return_general / StateStorage / ring buffer; one constructor per bytecode::Instruction variant, pinned each run) that runs the REAL compiler's bytecode and agrees with the real VM bit for bit per sample, and a bytecode VERIFIER with a machine-checked soundness theorem (C03_bvm_verified_safe / _main_safe / _session_safe: accepted bytecode never faults — stack, constants, function indices, jumps, globals, state storage — for any arithmetic, input and number of samples; dsp leaves exactly its declared words; storage = published size; cursor home; C03_bvm_fuel: explicit fuel bound). The verifier is run on the bytecode of every generated and shipped program: a rejection of compiler-emitted bytecode is a failing input covering ALL paths. Beyond that a crash oracle (panic/abort/SIGSEGV/timeout, H1 bounds) on accepted generated programs (first order, closures / boxes / scheduler tasks, wide self), near-miss mutants and shipped sources",
+         "Rust unsafe memory safety not proved; closures/upvalues, heap boxes, arrays, integer instructions and machine integer widths outside the bytecode model (crash oracle only); WASM side by crash oracle only; compiler robustness defects recorded as known findings by panic site / construct class (F26 F30 F31 F37-F41 F61 F64 X7; F3 F4 F33 F34 F36 repaired)"),
  "C20": ("proof", "coq-fficodec", "machine-checked proof in Coq + byte-level correspondence + tables regenerated from source",
          "round-trip / refusal theorems for FfiValue, Value, Type and macro args over a byte-level model of bincode 1.3 and the hand-written serde; variant tables regenerated from the Rust source each run",
          "bincode/serde derive/slotmap/string-interner modelled not verified; keys and ids session-local; known finding F10 (ErrorV -> Unit)"),
